@@ -45,13 +45,17 @@ func (r *Run) CollectRaces() {
 			var pair []string
 			inRepo := false
 			for i := 0; i < len(stacks) && i < 2; i++ {
+				// the innermost frame that is not runtime/sync plumbing is the racing access
 				pick := stacks[i][0]
 				for _, fr := range stacks[i] {
-					if strings.Contains(fr, "alephium/wormhole-fork/") {
-						pick = fr
-						inRepo = true
-						break
+					if strings.HasPrefix(fr, "runtime.") || strings.HasPrefix(fr, "sync.") || strings.HasPrefix(fr, "sync/atomic.") {
+						continue
 					}
+					pick = fr
+					break
+				}
+				if strings.Contains(pick, "alephium/wormhole-fork/") {
+					inRepo = true
 				}
 				pick = strings.TrimPrefix(pick, "github.com/alephium/wormhole-fork/")
 				pair = append(pair, pick)
